@@ -23,7 +23,10 @@ def gen(rng, tier, no, wide=False):
     force = {"stream_zero": True} if rng.random() < 0.15 else {}
     if rng.random() < 0.1:
         force.update({"nranks": rng.choice([2, 3]), "filler": -90})       # many rank-specific names: global symbol ids beyond 127
-    return C.gen_with(rng, C.every_rank_has_device, **force)
+    case = C.gen_with(rng, C.every_rank_has_device, **force)
+    if rng.random() < 0.04 and not force:
+        case = C.many_ranks(rng, case)
+    return case
 
 
 def wf(case) -> bool:
